@@ -551,6 +551,26 @@ fn m_visible(model: &Model, m: usize, r: &str) -> bool {
         })
 }
 
+/// A legitimate one-step re-export chain, which every reading of "re-export" makes visible:
+/// m imports (rule import, matching pattern) from an existing hub H; H declares a rule import with a
+/// matching pattern from an existing source S *with a re-export clause one of whose patterns matches r*;
+/// S owns r and exports it through its own export list.
+fn m_visible_by_reexport_chain(model: &Model, m: usize, r: &str) -> bool {
+    let mm = model[m].as_ref().unwrap();
+    mm.decls.iter().any(|d| {
+        d.ty.rules()
+            && pat_matches(&d.pat, r)
+            && mod_index(&d.from).and_then(|h| model[h].as_ref()).map(|hub| {
+                hub.decls.iter().any(|e| {
+                    e.ty.rules()
+                        && pat_matches(&e.pat, r)
+                        && e.re.as_ref().map(|(pats, _)| pats.iter().any(|p| pat_matches(p, r))).unwrap_or(false)
+                        && mod_index(&e.from).and_then(|si| model[si].as_ref()).map(|src| m_exports_own(src, r)).unwrap_or(false)
+                })
+            }).unwrap_or(false)
+    })
+}
+
 /// necessary condition that also holds with re-exports: owns, or some rule import
 /// from an existing module has a matching pattern
 fn m_visible_upper(model: &Model, m: usize, r: &str) -> bool {
@@ -733,6 +753,15 @@ fn state_check(mgr: &ModuleManager, model: &Model, kept: &[(usize, usize)], step
                             "visible-without-matching-import",
                             at(format!("is_rule_visible({}, {}) = true but {} neither owns it nor has a rule import with a matching pattern; {}", r, name, name, dump(model))),
                         ));
+                    }
+                    if reexports && !v && !exact && m_visible_by_reexport_chain(model, i, r) {
+                        return Err(Verdict::fail(
+                            "declared-re-export-not-visible",
+                            at(format!("is_rule_visible({}, {}) = false although {} imports it from a hub that declares a re-export of it from its exporting owner; {}", r, name, name, dump(model))),
+                        ));
+                    }
+                    if reexports && v && !exact && m_visible_by_reexport_chain(model, i, r) {
+                        ctx.label("sees-re-exported-rule");
                     }
                     if reexports && !v && exact {
                         return Err(Verdict::fail(
